@@ -29,12 +29,42 @@ CONFIGS = [
 ENVIRON = {'HTTP_PROXY': 'http://envproxy.local:3128', 'HTTPS_PROXY': 'http://envsproxy.local:3129'}
 
 
+PRELUDES = ['ok', 'partial-error', 'partial-eof', '407']
+
+
+def _prelude(c, L, url, proxies):
+    """an EARLIER connection attempt in the same process (its own WebSocket object and socket): whatever the proxy did
+    then must not influence the attempt that is checked"""
+    k = PRELUDES[c.choose(len(PRELUDES), 'prelude')]
+    w0 = new_world()
+    if k == 'ok':
+        sc0 = Script(lambda w_, s_: list(b'HTTP/1.1 200 Connection established\r\n\r\n'), end='eof')
+        sc0.phases.append(lambda w_, s_: (hconn.reply_101(w_, s_) + [0x81, 0x01, 0x61]) if hconn.request_key(w_, s_) else None)
+    elif k == '407':
+        sc0 = Script(lambda w_, s_: list(b'HTTP/1.1 407 Proxy Authentication Required\r\n\r\n'), end='eof')
+    else:
+        sc0 = Script(lambda w_, s_: list(b'HTTP/1.1 200 Connection established\r\n'), end='error' if k == 'partial-error' else 'eof')
+    w0.default_script = sc0
+    ws0 = L.WebSocket(url, proxies=proxies)
+    rec0 = hconn.drive(w0, ws0, dict(poll=1e9, ping_rate=0, ping_timeout=None, close_timeout=None))
+    if rec0.budget is not None:
+        raise EngineLimit('loop budget in proxy prelude')
+    return k
+
+
 def run_proxy(c, P):
-    L = lomond()
-    w = new_world()
+    L = lomond(fresh=True)
     cfgs = P.get('configs') or list(range(len(CONFIGS)))
     ci = cfgs[c.choose(len(cfgs), 'cfg')]
     url, proxies, purl, phost, pport, ptls, thost, tport, wss = CONFIGS[ci]
+    import lomond.websocket as _W
+    if isinstance(proxies, str):
+        _W.os.environ = dict(ENVIRON)
+        proxies = {} if proxies == 'ENV:{}' else None
+    else:
+        _W.os.environ = {}
+    prelude = _prelude(c, L, url, proxies) if P.get('prelude') and purl else None
+    w = new_world()
     status = [c.byte('s%d' % i) for i in range(3)] if P.get('sym_status', True) else list(b'200')
     tails = P.get('tails', ['ok', 'ok-headers', 'unterminated-eof', 'empty', 'oversize', 'oversize-terminated', 'garbage'])
     tail = tails[c.choose(len(tails), 'tail')] if purl else 'ok'
@@ -73,17 +103,11 @@ def run_proxy(c, P):
     if P.get('fault'):
         F = P['fault']
         w.fault_hook = env.SymFaults(F['ops'], F.get('kinds', ['oserror']), F.get('max', 1), F.get('skip'))
-    import lomond.websocket as _W
-    if isinstance(proxies, str):
-        _W.os.environ = dict(ENVIRON)
-        proxies = {} if proxies == 'ENV:{}' else None
-    else:
-        _W.os.environ = {}
     ws = L.WebSocket(url, proxies=proxies)
     rec = hconn.drive(w, ws, dict(poll=1e9, ping_rate=0, ping_timeout=None, close_timeout=None))
     names = rec.names()
     inj = list(getattr(w.fault_hook, 'injected', None) or [])
-    c.notes['scenario'] = dict(cfg=ci, tail=tail, events=names, faults=inj)
+    c.notes['scenario'] = dict(cfg=ci, tail=tail, events=names, faults=inj, earlier_attempt=prelude)
     if rec.exc is not None:
         c.fail('C19: exception escaped the event iterator: %r' % (rec.exc,))
     if rec.budget is not None:
